@@ -50,6 +50,9 @@ type ChildCase struct {
 	// program: 1 = "ret ALLOW" everywhere, 2 = zero words (refused by the kernel), 3 = collections only.
 	// Correct code is unaffected (the program stays reachable until the kernel has copied it).
 	GCSpray int `json:"gc_spray,omitempty"`
+	// SiblingLoads: while the judged load runs, this many other pinned threads load another (harmless) policy without
+	// thread-sync, on one P and with a pause inside every load between prctl and the seccomp call.
+	SiblingLoads int `json:"sibling_loads,omitempty"`
 	// PidNamespace: the child is process 1 of a new PID namespace with its own /proc (unshare -p -f --mount-proc): its main
 	// thread has thread id 1. Not combined with strace (the tracer would be process 1).
 	PidNamespace bool `json:"pid_namespace,omitempty"`
